@@ -640,9 +640,30 @@ def gc_scenarios(tier, stores):
         scs.append(dict(name="gcT-%s" % ("G" if g else "g"), profile="gctags", contents=["m1", "m2"], algs=["sha256"], depth=(18, 28), num=(30, 200),
                         stores=stores, obs=[], nrepos=1, ntags=3, cfg={"untagged": True, "dangling": False, "withSubj": False, "grace": g, "emptyRepo": False}))
     scs.append(dict(name="gcorder", static_programs=gc_order_programs, obs=[]))
+    scs.append(dict(name="gcext", static_programs=gc_ext_programs, obs=[]))
     scs[0]["mc_contents"] = ["m1", "a1"]
     scs[0]["mc_depth"] = (4, 5)
     return scs
+
+
+def gc_ext_programs(seed):
+    """Directed: another tool (a second server on the same directory) adds a tagged image to the layout right after the server
+    under test looked at it; the collection that follows at once must see it (no grace period: nothing is protected by its age)."""
+    def blob(b, via=""):
+        o = {"op": "PushBlob", "repo": "r1", "dig": "sha256:" + b, "chunk": {"c": b, "p": "all"}, "which": "mono", "alg": ""}
+        if via:
+            o["via"] = via
+        return o
+    progs = []
+    for k, untagged in enumerate((True, False)):
+        ops = [blob("b3"), {"op": "TagsList", "repo": "r1", "method": "GET", "n": "100", "ni": 100, "nc": "pos", "last": 0},
+               blob("b1", "other"), blob("b2", "other"),
+               {"op": "ManPut", "repo": "r1", "ref": {"k": "tag", "v": "t1"}, "ctype": "oci.image", "ctvar": "", "body": "m1", "lenKnown": True, "dparam": "", "via": "other"},
+               {"op": "GC", "repo": "r1"}, {"op": "TagsList", "repo": "r1", "method": "GET", "n": "100", "ni": 100, "nc": "pos", "last": 0}, {"op": "Restart"}]
+        cfg = dict(DEFAULT_CFG, untagged=untagged, grace=False, emptyRepo=False)
+        progs.append({"id": "gcext-%d" % k, "cfg": cfg, "contents": ["m1", "b3"], "algs": ["sha256"], "ntags": 2, "repos": ["proj/app"], "seed": k,
+                      "tagstyle": 0, "pre": "", "sentinel": False, "ops": ops, "stores": ["dir"]})
+    return progs
 
 
 def gc_order_programs(seed):
